@@ -750,8 +750,9 @@ func (s *Server) runElection(id string, elecID *spb.Uint128) (*spb.ModifyRespons
 		return nil, status.Newf(codes.Internal, "cannot store election ID %s for client %s", elecID, id).Err()
 	}
 
-	s.elecMu.RLock()
-	defer s.elecMu.RUnlock()
+	// The election state is updated below, so the write lock is required.
+	s.elecMu.Lock()
+	defer s.elecMu.Unlock()
 	nm, _, err := isNewMaster(elecID, s.curElecID)
 	if err != nil {
 		return nil, err
@@ -1123,16 +1124,18 @@ func (s *Server) checkFlushRequest(req *spb.FlushRequest) error {
 	}
 
 	id := req.GetId()
+	// Read the current election ID under the election lock.
+	curElecID := s.getElection().ID
 	switch {
-	case id == nil && s.curElecID == nil:
+	case id == nil && curElecID == nil:
 		// We are in ALL_PRIMARY mode and not given an election ID, which is fine.
 		return nil
-	case id == nil && s.curElecID != nil:
+	case id == nil && curElecID != nil:
 		// We are in SINGLE_PRIMARY mode but we were not given an election behaviour.
 		return addFlushErrDetailsOrReturn(status.Newf(codes.FailedPrecondition, "unsupported election behaviour, client in SINGLE_PRIMARY mode"), &spb.FlushResponseError{
 			Status: spb.FlushResponseError_UNSPECIFIED_ELECTION_BEHAVIOR,
 		})
-	case id != nil && s.curElecID == nil:
+	case id != nil && curElecID == nil:
 		return addFlushErrDetailsOrReturn(status.Newf(codes.FailedPrecondition, "received election ID in ALL_PRIMARY mode"), &spb.FlushResponseError{
 			Status: spb.FlushResponseError_ELECTION_ID_IN_ALL_PRIMARY,
 		})
@@ -1149,7 +1152,7 @@ func (s *Server) checkFlushRequest(req *spb.FlushRequest) error {
 		})
 	}
 
-	existing := uint128.New(s.curElecID.Low, s.curElecID.High)
+	existing := uint128.New(curElecID.Low, curElecID.High)
 	if candidate.Cmp(existing) < 0 {
 		return addFlushErrDetailsOrReturn(status.Newf(codes.FailedPrecondition, "election ID specified (%v) is not primary", candidate), &spb.FlushResponseError{
 			Status: spb.FlushResponseError_NOT_PRIMARY,
